@@ -142,11 +142,12 @@ impl Check for C13 {
             // encoding direction: try_from == serialize-then-parse
             let a = toml::Value::try_from(v).map_err(|e| (None, format!("toml::Value::try_from fails although toml::to_string succeeds: {}", e)))?;
             let b: toml::Value = toml::from_str(&text).map_err(|e| (None, format!("serialized text does not parse into toml::Value: {}", e.message())))?;
-            if crate::real::canon_toml_value(&a, true).replace("f-nan", "f+nan") != crate::real::canon_toml_value(&b, true).replace("f-nan", "f+nan") {
+            // exact, NaN sign included: both routes normalise it the same way or the trees differ
+            if crate::real::canon_toml_value(&a, true) != crate::real::canon_toml_value(&b, true) {
                 return Err((dtc(v), format!("toml::Value::try_from gives {} but parsing the serialized text gives {}", crate::real::canon_toml_value(&a, true), crate::real::canon_toml_value(&b, true))));
             }
             let ta = toml::Table::try_from(v).map_err(|e| (None, format!("toml::Table::try_from fails: {}", e)))?;
-            if crate::real::canon_toml_table(&ta, true).replace("f-nan", "f+nan") != crate::real::canon_toml_value(&b, true).replace("f-nan", "f+nan") {
+            if crate::real::canon_toml_table(&ta, true) != crate::real::canon_toml_value(&b, true) {
                 return Err((dtc(v), format!("toml::Table::try_from gives {} but parsing the serialized text gives {}", crate::real::canon_toml_table(&ta, true), crate::real::canon_toml_value(&b, true))));
             }
             // the single-value routes: v written as ONE value (an inline table) by either value serializer, read back by
